@@ -30,7 +30,7 @@ REQUIRED_CLAUSES = ["mass.spd", "mass.sum_JGJ", "fd_inverts_id", "decomposition"
 def plan(tier, seed):
     if tier == "quick":
         return [{"n": 40, "ntraj": 3, "timeout_s": 1800} for _ in range(16)]
-    return [{"n": 1250, "ntraj": 12, "timeout_s": 14400} for _ in range(16)]
+    return [{"n": 5000, "ntraj": 40, "timeout_s": 14400} for _ in range(16)]
 
 
 def gen_chain(rng, n=None, physical=None):
